@@ -551,16 +551,22 @@ def _batch_section(rep, cfg, ci, rng, thorough, light=False):
 
     def go(order, sched, section, sample=False, base=cfg):
         case = dict(base, kind='batch', order=list(order), sched=sched)
-        _emit(rep, case, check_batch(case), section, ('b', ci, tuple(order), json.dumps(sched, sort_keys=True), base is ext), sample)
+        _emit(rep, case, check_batch(case), section, ('b', ci, tuple(order), json.dumps(sched, sort_keys=True), base is ext, base is lock), sample)
 
     def near(k, sched, order=None, base=cfg, section='n_nearest', sample=False):
         case = dict(base, kind='nearest', n_nearest=k, sched=sched)
         if order is not None:
             case['order'] = list(order)
-        _emit(rep, case, check_nearest(case), section, ('n', ci, k, json.dumps(sched, sort_keys=True), tuple(order or ()), base is ext), sample)
+        _emit(rep, case, check_nearest(case), section, ('n', ci, k, json.dumps(sched, sort_keys=True), tuple(order or ()), base is ext, base is lock), sample)
 
     def long_list():
         return [rng.randrange(nq + 3) for _ in range(rng.randint(24, 64))]
+
+    # 24 different queries of one length (1, 2 or 5): their iterations cost the same, so the threads reach the same
+    # statement at the same time - the arrangement in which state shared between threads by mistake is most visible
+    lock = dict(cfg, Q=[{'seed': rng.randrange(10 ** 9), 'lens': [[1, 2, 5][ci % 3]] * 24, 'grid': 0, 'alpha': 1.0}])
+    if degenerate(mats(lock['Q']), Ts_, cfg['rc']):
+        lock = None
 
     for i in allq:
         case = dict(cfg, kind='history', iq=i)
@@ -589,6 +595,12 @@ def _batch_section(rep, cfg, ci, rng, thorough, light=False):
     near(rng.randint(1, nt), {'n_jobs': MAX_THREADS}, order=long_list(), base=ext, section='n_nearest-long-list')
     near(nt, {'n_jobs': rng.choice([2, 3, 6]), 'chunk': rng.choice([1, 2]), 'form': 'torch'}, order=long_list(), base=ext,
          section='n_nearest-long-list')
+    if lock is not None:
+        for v in range((4 if thorough else 2) if not light else 1):
+            th = [MAX_THREADS, 4, 8, 2][v % 4]
+            go(range(24), {'n_jobs': min(th, MAX_THREADS)}, 'lockstep', base=lock)
+            near(nt, {'n_jobs': min(th, MAX_THREADS)}, order=range(24), base=lock, section='lockstep')
+            near(rng.randint(1, nt), {'n_jobs': MAX_THREADS, 'chunk': 1 + v}, order=range(24), base=lock, section='lockstep')
     go(allq, {'n_jobs': 2, 'form': 'torch'}, 'torch-views')
     go(allq[::-1], {'n_jobs': 1, 'form': 'torch'}, 'torch-views')
     if nq <= (5 if thorough else 4) and not light:
